@@ -132,6 +132,11 @@ var selectorConsts = map[string]cval{
 	"time.Second":      {i: 1000000000},
 	"time.Minute":      {i: 60000000000},
 	"time.Hour":        {i: 3600000000000},
+	"http.StatusOK": {i: 200}, "http.StatusBadRequest": {i: 400}, "http.StatusUnauthorized": {i: 401}, "http.StatusForbidden": {i: 403},
+	"http.StatusNotFound": {i: 404}, "http.StatusNotAcceptable": {i: 406}, "http.StatusInternalServerError": {i: 500},
+	"http.StatusBadGateway": {i: 502}, "http.StatusServiceUnavailable": {i: 503}, "http.StatusGatewayTimeout": {i: 504},
+	"http.StatusInsufficientStorage": {i: 507}, "http.StatusUnsupportedMediaType": {i: 415}, "http.StatusMultipleChoices": {i: 300},
+	"http.StatusRequestEntityTooLarge": {i: 413}, "http.StatusTooManyRequests": {i: 429}, "http.StatusNotImplemented": {i: 501},
 }
 
 func findConstExpr(dir, name string) (ast.Expr, *pkgInfo, int, *ast.ValueSpec) {
@@ -279,7 +284,20 @@ type out struct {
 	b    strings.Builder
 }
 
-func (o *out) f(format string, a ...interface{}) { fmt.Fprintf(&o.b, format, a...) }
+// f writes formatted text; every Coq comment on the line is sanitised so that Go text such as new(*T) cannot
+// open a nested comment.
+func (o *out) f(format string, a ...interface{}) {
+	s := fmt.Sprintf(format, a...)
+	lines := strings.Split(s, "\n")
+	for i, ln := range lines {
+		if k := strings.Index(ln, "(* "); k >= 0 && strings.HasSuffix(strings.TrimRight(ln, " "), "*)") {
+			body := ln[k+3 : strings.LastIndex(ln, "*)")]
+			body = strings.ReplaceAll(strings.ReplaceAll(body, "(*", "( *"), "*)", "* )")
+			lines[i] = ln[:k+3] + body + "*)"
+		}
+	}
+	o.b.WriteString(strings.Join(lines, "\n"))
+}
 
 func (o *out) brokenDef(coqName, why string) {
 	broken = append(broken, o.name+": "+coqName+": "+why)
@@ -980,6 +998,37 @@ func (o *out) hasStmt(dir, recv, name, stmt, coqName string) {
 		return !found
 	})
 	o.f("Definition %s : bool := %v. (* %s:%s.%s contains `%s` *)\n", coqName, found, dir, recv, name, stmt)
+}
+
+// callArgClasses: lists, in source order, the second argument of every call to one of `callees` inside the
+// function, mapped through `classes` to small integers (unknown arguments map to 99).
+func (o *out) callArgClasses(dir, recv, name, coqName string, callees []string, classes map[string]int) {
+	p, fd := findFunc(dir, recv, name)
+	if fd == nil {
+		o.brokenDef(coqName, "function "+dir+":"+recv+"."+name+" not found")
+		return
+	}
+	var seq, names []string
+	ast.Inspect(fd.Body, func(n ast.Node) bool {
+		ce, ok := n.(*ast.CallExpr)
+		if !ok || len(ce.Args) != 2 {
+			return true
+		}
+		callee := printNode(p.fset, ce.Fun)
+		for _, c := range callees {
+			if callee == c {
+				arg := printNode(p.fset, ce.Args[1])
+				code, ok := classes[arg]
+				if !ok {
+					code = 99
+				}
+				seq = append(seq, strconv.Itoa(code))
+				names = append(names, arg)
+			}
+		}
+		return true
+	})
+	o.f("Definition %s : list Z := [%s]. (* %s:%s.%s : %s *)\n", coqName, strings.Join(seq, "; "), dir, recv, name, strings.Join(names, ", "))
 }
 
 // ---------------------------------------------------------------- main
